@@ -67,8 +67,9 @@ def _topologies(tier):
     return out
 
 
-def _case(kind, edges, nodes, wt, ignore=(), scaling=(), starts=(), ends=(), lam=0, eps=None):
-    return dict(kind=kind, edges=[list(e) for e in edges], nodes=nodes, wt=wt, ignore=[list(x) if isinstance(x, tuple) else x for x in ignore],
+def _case(kind, edges, nodes, wt, ignore=(), scaling=(), starts=(), ends=(), lam=0, eps=None, edgeattr=None):
+    """edgeattr (node-weighted input only): every edge additionally carries the attribute of the same name with this value - it must not count"""
+    return dict(edgeattr=edgeattr, kind=kind, edges=[list(e) for e in edges], nodes=nodes, wt=wt, ignore=[list(x) if isinstance(x, tuple) else x for x in ignore],
                 scaling=[[list(k) if isinstance(k, tuple) else k, f] for k, f in scaling], starts=list(starts), ends=list(ends), lam=lam, eps=eps)
 
 
@@ -121,6 +122,8 @@ def cases(tier):
                 # --- node-weighted
                 if var in (0, 1, 2, 3) or tier != "quick":
                     yield _case("node", E, nv, wt)
+                    if var == 0:
+                        yield _case("node", E, nv, wt, edgeattr=(7 if wt == "int" else 7.5))
                     n1 = V[(ti + wi) % len(V)]
                     n2 = V[(ti + wi + 1) % len(V)]
                     if var == 0:
@@ -325,11 +328,14 @@ def check(case):
             else:
                 inp.add_node(v, **{ATTR: f})
         inp.add_edges_from(E)
+        if case.get("edgeattr") is not None:
+            for (u, v) in E:
+                inp[u][v][ATTR] = case["edgeattr"]
         ignore = list(case["ignore"])
         scaling = {k: f for k, f in case["scaling"]}
     desc = "%s-weighted %s %s values=%s ignore=%s scaling=%s starts=%s ends=%s lambda=%s eps=%s" % (
         kind, "DAG" if dag else "cyclic", case["wt"], case["edges"] if kind == "edge" else (E, case["nodes"]), case["ignore"], case["scaling"],
-        case["starts"], case["ends"], case["lam"], case["eps"])
+        case["starts"], case["ends"], case["lam"], case["eps"]) + (" edges-carry-%s=%s" % (ATTR, case["edgeattr"]) if case.get("edgeattr") is not None else "")
     kw = dict(flow_attr=ATTR, flow_attr_origin=kind, weight_type=wt, sparsity_lambda=case["lam"], few_flow_values_epsilon=case["eps"],
               elements_to_ignore=ignore, error_scaling=scaling)
     if case["starts"] or case["ends"]:
